@@ -28,6 +28,9 @@ def rule_var(S):
                     'where a stable version of the same border, loaded after the slot, satisfies: vsplit equal to the '
                     'version of the descent, not deleted (or still a root), vinsert_delete equal to the version '
                     'get_lv_of validated')
+    S.rule('R-PLC', 'get<V>, put<V>, remove: before the result of get_lv_of is used (slot load, miss report) the version '
+                    'it validated is established to have the vsplit of the descent and not to be deleted (unless still '
+                    'a root): the border may have been split or unlinked between find_border and the lookup')
     S.rule('R-RV', 'get<V> for out-of-line value types: the value exit additionally establishes that the loaded word '
                    'is not the cleared state (or re-compares the permutation): a remove clears the slot and shrinks '
                    'the permutation without changing the version word')
